@@ -943,6 +943,65 @@ OK("c20-benign-ok-compare-swapped", "C20", "sigver.py",
 
 VARIANTS[:] = [v for v in VARIANTS if v]
 
+# ------------------------------------------------------------------ round 6
+V("c07-keep-unfiltered-when-counts-agree", "C07", "assertion.py",
+  "            if rvals:\n                ava[attr] = list(set(rvals))\n            else:\n                del ava[attr]",
+  "            if not rvals:\n                del ava[attr]\n            elif len(rvals) != len(vals):\n                ava[attr] = list(set(rvals))",
+  rule="R3")
+V("c07-store-all-values", "C07", "assertion.py",
+  "                ava[attr] = list(set(rvals))", "                ava[attr] = list(set(vals))", rule="R3")
+OK("c07-benign-lookup-inlined", "C07", "assertion.py",
+   "        _attr = attr.lower()\n        try:\n            _rests = attribute_restrictions[_attr]",
+   "        try:\n            _rests = attribute_restrictions[attr.lower()]")
+V("c09-acs-compare-without-query", "C09", "server.py",
+  "                if _acs == acs.text:", "                if _acs.split('?')[0] == acs.text.split('?')[0]:", rule="R6")
+V("c09-acs-prefix-match", "C09", "server.py",
+  "                if _acs == acs.text:", "                if _acs.startswith(acs.text):", rule="R6")
+V("c11-metadata-swallows-valueerror", "C11", "mdstore.py",
+  "        self.entities_descr = md.entities_descriptor_from_string(xmlstr)\n",
+  "        try:\n            self.entities_descr = md.entities_descriptor_from_string(xmlstr)\n        except ValueError:\n            self.entities_descr = None\n            return\n",
+  rule="R5")
+V("c12-foreign-children-reversed", "C12", "__init__.py",
+  "    for child in element_tree:\n        extension.children.append(_extension_element_from_element_tree(child))",
+  "    for child in element_tree:\n        extension.children.insert(0, _extension_element_from_element_tree(child))",
+  rule="E4")
+V("c12-foreign-children-first-only", "C12", "__init__.py",
+  "    for child in element_tree:\n        extension.children.append(_extension_element_from_element_tree(child))",
+  "    for child in element_tree:\n        if not extension.children:\n            extension.children.append(_extension_element_from_element_tree(child))",
+  rule="E4")
+OK("c12-benign-foreign-children-extend", "C12", "__init__.py",
+   "    for child in element_tree:\n        extension.children.append(_extension_element_from_element_tree(child))",
+   "    extension.children.extend(_extension_element_from_element_tree(child)\n                              for child in element_tree)")
+V("c13-duration-break-first", "C13", "time_util.py",
+  "    for code, typ in D_FORMAT:\n        #print(duration[index:], code)\n",
+  "    for code, typ in D_FORMAT:\n        if index == dlen:\n            break\n", rule="V10")
+OK("c13-benign-duration-explicit-empty-check", "C13", "time_util.py",
+   "    for code, typ in D_FORMAT:\n        #print(duration[index:], code)\n",
+   "    if index == dlen:\n        raise Exception(\"Nothing after P\")\n    for code, typ in D_FORMAT:\n        if index == dlen:\n            break\n")
+V("c16-index-zero-is-absent", "C16", "metadata.py",
+  "                    if \"index\" not in args:", "                    if not args.get(\"index\"):", rule="M10")
+OK("c16-benign-index-get-is-none", "C16", "metadata.py",
+   "                    if \"index\" not in args:", "                    if args.get(\"index\") is None:")
+V("c18-remove-local-aborts-on-bad-entry", "C18", "ident.py",
+  "                try:\n                    nid = decode(val)\n                    del self.db[nid.text]\n                except KeyError:\n                    pass\n",
+  "                nid = decode(val)\n                del self.db[nid.text]\n", rule="R1")
+VARIANTS.append(dict(id="c14-shared-envelope-template", props=["C14"], expect="V",
+                     rule="S2", edits=[
+    ("soap.py", "    assert len(envelope) >= 1\n    env = {\"header\": [], \"body\": None}\n",
+     "    assert len(envelope) >= 1\n    env = dict(_EMPTY_ENV)\n", 1),
+    ("soap.py", "def instanciate_class(item, modules):",
+     "_EMPTY_ENV = {\"header\": [], \"body\": None}\n\n\ndef instanciate_class(item, modules):", 1)]))
+V("c02-verified-regardless-of-verdict", ["C02", "C01"], "sigver.py",
+  "                if self.verify_signature(\n                        decoded_xml,\n                        pem_file,\n                        node_name=node_name,\n                        node_id=item.id,\n                        id_attr=id_attr):\n                    verified = True\n                    break\n",
+  "                self.verify_signature(\n                        decoded_xml,\n                        pem_file,\n                        node_name=node_name,\n                        node_id=item.id,\n                        id_attr=id_attr)\n                verified = True\n                break\n",
+  rule="R7")
+V("c03-issuer-in-only-valid-cert-slot", ["C03"], "sigver.py",
+  "                origdoc,\n                id_attr=id_attr,\n                must=must,\n                issuer=issuer)",
+  "                origdoc,\n                id_attr,\n                must,\n                issuer)",
+  rule="R8")
+V("c06-request-returned-whatever-verify-says", ["C06"], "entity.py",
+  "        if _request:\n            _request = _request.verify()\n            _log_debug(\"Verified request\")\n",
+  "        if _request and _request.verify():\n            _log_debug(\"Verified request\")\n", rule="R7")
 # ------------------------------------------------------------------ engine
 # behaviour-preserving edits of the kinds DESIGN 7.7 normalises; all must be
 # silent (multi-file edits)
